@@ -353,6 +353,15 @@ def converted_differs(doc, converted):
     return ""
 
 
+def jsonable(v):
+    """the document with keys that are not strings spelled out (JSON objects have string keys only)"""
+    if isinstance(v, dict):
+        return {(k if isinstance(k, str) else "<%s %r>" % (type(k).__name__, k)): jsonable(x) for k, x in v.items()}
+    if isinstance(v, list):
+        return [jsonable(x) for x in v]
+    return v
+
+
 def make_case(doc, desc, root):
     os.makedirs(root, exist_ok=True)
     out, info = specsim.run_pipeline(doc, root)
@@ -368,7 +377,10 @@ def make_case(doc, desc, root):
             impl = ["accepted steps=%s" % ",".join(hx(str(n)) for n in info["steps"])]
         else:
             impl = [cls]
-    data = {"doc": doc, "mutation": desc, "outcome": out, "broken_rules": broken_rules(doc)[:4]}
+    data = {"doc": jsonable(doc), "mutation": desc, "outcome": out, "broken_rules": broken_rules(doc)[:4]}
+    if data["doc"] != doc:
+        import yaml
+        data["yaml"] = yaml.safe_dump(doc, sort_keys=False)     # keys that are not strings: the exact document
     return Case(data, lines, impl, mon, cls != "accepted" or desc == "valid")
 
 
